@@ -25,16 +25,16 @@ type Stress struct {
 	// GateErr are the error classes (fakech.ErrClasses) of gated INSERTs released with an
 	// error, used cyclically; empty = plain errors.
 	GateErr []string `json:"gate_err,omitempty"`
-	Refuse int           `json:"refuse"` // reconnects refused at the first error
+	Refuse  int      `json:"refuse"` // reconnects refused at the first error
 }
 
 // GenStress draws a stress case.
 func GenStress(rt *rapid.T, maxPushers, maxPer int) Stress {
 	s := Stress{}
-	s.Cfg.IntervalMs = rapid.SampledFrom([]int{1, 1, 2, 5, 20}).Draw(rt, "interval")
+	s.Cfg.IntervalMs = rapid.SampledFrom([]int{1, 1, 2, 5, 20, 0}).Draw(rt, "interval") // 0 = one hour: only overflow and forced flushes
 	s.Cfg.MaxQueueSize = rapid.SampledFrom([]int64{0, 1, 100, 3000, 1 << 30}).Draw(rt, "queue")
-	s.Cfg.Workers = rapid.IntRange(1, 4).Draw(rt, "workers")
-	s.Cfg.RetryAttempts = rapid.IntRange(1, 4).Draw(rt, "retries")
+	s.Cfg.Workers = rapid.SampledFrom([]int{1, 2, 3, 4, 1, 8}).Draw(rt, "workers")
+	DrawRetries(rt, &s.Cfg)
 	s.Cfg.Bernstein = rapid.Bool().Draw(rt, "bernstein")
 	np := rapid.IntRange(2, maxPushers).Draw(rt, "pushers")
 	for p := 0; p < np; p++ {
@@ -121,6 +121,23 @@ func RunStress(s Stress) *Trace {
 		}
 	}()
 
+	if s.Cfg.IntervalMs == 0 {
+		// one-hour interval: the timer never fires, batches leave on overflow or forced flushes
+		relWG.Add(1)
+		go func() {
+			defer relWG.Done()
+			for {
+				select {
+				case <-stopRel:
+					return
+				case <-time.After(500 * time.Microsecond):
+					for _, k := range Kinds {
+						hs.Svc[k].PlanFlush()
+					}
+				}
+			}
+		}()
+	}
 	var mu sync.Mutex
 	var wg sync.WaitGroup
 	for p, plan := range s.Plan {
@@ -164,7 +181,7 @@ func RunStress(s Stress) *Trace {
 	case <-time.After(60 * time.Second):
 		tr.Unanswered = "pushers still blocked 60 s after the start although the database keeps answering"
 	}
-	if tr.Unanswered == "" && !hs.Rec.WaitSettled(hs.Cfg.RetryAttempts, 30*time.Second) {
+	if tr.Unanswered == "" && !hs.Rec.WaitSettled(hs.Cfg.Attempts(), 30*time.Second) {
 		tr.Unanswered = "submissions without an answer 30 s after the last push although the database keeps answering"
 	}
 	close(stopRel)
